@@ -647,3 +647,5 @@ def run(ctx):
     from . import C05
     C05.r3_transition_discipline(ctx, 'C06.R8')
     ctx.rules[-1].text = 'a stream popped from a work queue (pending_send / capacity / open / window_updates / accept) is processed under Counts::transition or re-queued on every path: a popped and dropped stream is work that is never done (= C05.R3)'
+    from .. import boundaries as _b
+    _b.check_counts(ctx, 'C06.RQ', 'C06')
